@@ -58,7 +58,7 @@ package syncer
 //@ func (*Syncer).ban props C11
 //@   assigns nothing
 //@   frame assumed
-//@   requires s != nil && p != nil && s.pm != nil && s.log != nil && err != nil
+//@   requires s != nil && p != nil
 //@   ensures [reported] called("PeerStore.Ban") && calledBefore("setErr", "PeerStore.Ban")
 //@ iface PeerStore.UpdatePeerInfo
 //@   assigns nothing
